@@ -34,3 +34,8 @@ def shape_key(case, results):
         if not r.o or not r.k or r.bad:
             return "trk-" + r.req.split()[1] + ("-invalid-choice" if "invalid-choice" in r.flags else "")
     return "none"
+
+SOURCE_TIE = "Source-level tie by proof (Tie/VMetric, Tie/Voting): the decision kernels of VisualMetric and BestFitVoting::winners as regenerated from the source equal the model's."
+LEVEL_TEXT = LEVEL_TEXT + " " + SOURCE_TIE
+TRUSTED_BASE = TRUSTED_BASE + ["translator/kernels.py + rustexpr.py (reader of the Rust subset, per-function tables) for the functions named in SOURCE_TIE; generated definitions are proof obligations (Tie modules) on every run"]
+TECHNIQUE = TECHNIQUE + "; model regenerated from the source by a translator for the functions of SOURCE_TIE, tied by proof"
